@@ -42,7 +42,7 @@ class Frame:
         self.items.append(("%s.means" % name, ("attr", m, "means"), self.B.copy(m.means)))
         self.items.append(("%s.variances" % name, ("attr", m, "variances"), self.B.copy(m.variances)))
         self.items.append(("%s.weights" % name, ("attr", m, "weights"), self.B.copy(m.weights)))
-        self._gmm_arrays = getattr(self, "_gmm_arrays", []) + [(name, m.means), (name, m.variances), (name, m.weights)]
+        self._gmm_arrays = getattr(self, "_gmm_arrays", []) + [(name + ".means", m.means), (name + ".variances", m.variances), (name + ".weights", m.weights)]
 
     def unchanged(self, tag=""):
         for name, ref, snap in self.items:
@@ -204,7 +204,7 @@ def sc_fa(B, kind):
     return o
 
 
-def sc_ivector(B):
+def sc_ivector(B, update_sigma=True):
     from .c10 import iv_stats
 
     iv = B.mod("ivector")
@@ -219,7 +219,7 @@ def sc_ivector(B):
         s.log_likelihood = 0
         fr.own_stats("s%d" % j, s)
         stats.append(s)
-    m = iv.IVectorMachine(ubm=ubm, dim_t=t, max_iterations=1)
+    m = iv.IVectorMachine(ubm=ubm, dim_t=t, max_iterations=1, update_sigma=update_sigma)
     B.np.random.seed(0)
     m.fit(list(stats))
     fr.unchanged("-after-fit")
@@ -270,6 +270,7 @@ def job_misc(P):
     P.run("stats-ops", sc_stats_ops, {}, validate=1)
     P.run("linear-scoring", sc_linear, {}, validate=1)
     P.run("ivector", sc_ivector, {}, validate=0)
+    P.run("ivector-fixed-sigma", sc_ivector, dict(update_sigma=False), validate=0)
     for w in ("wccn", "whitening"):
         P.run(w, sc_linear_tx, dict(which=w), validate=1)
 
